@@ -742,15 +742,77 @@ func c01R3(p *core.Prog, r *core.Report) {
 		n++
 		r.Check(bad == "", rule, fname, "end of stream comes from the source", p.Pos(fn.Pos()), "the return at "+bad+" reports an error (or a clean end) that neither is a fresh limit error nor comes from the underlying reader: an end of stream invented at the limit means the byte after the limit is never read, so an over-long stream ends cleanly")
 	}
-	freshErrRet := func(succ *ssa.BasicBlock) bool {
-		ret, isRet := core.LastInstr(succ).(*ssa.Return)
-		if !isRet {
+	nEdges := 0
+	// a fresh error: built by fmt.Errorf / errors.New, directly or in a small helper that returns one
+	isFresh := func(c *ssa.Call) bool {
+		if cal := core.Callee(c); cal != nil && (core.IsFunc(cal, "fmt", "Errorf") || core.IsFunc(cal, "errors", "New")) {
+			return true
+		}
+		g := c.Call.StaticCallee()
+		if g == nil || !p.InModule(g) || len(g.Blocks) == 0 || len(g.Blocks) > 4 {
 			return false
 		}
-		if c, isCall := core.ReturnOperand(ret, 1).(*ssa.Call); isCall {
-			if cal := core.Callee(c); cal != nil && (core.IsFunc(cal, "fmt", "Errorf") || core.IsFunc(cal, "errors", "New")) {
-				return true
+		ok := false
+		for _, ret := range core.Returns(g) {
+			if len(ret.Results) != 1 || !isErr(ret.Results[0].Type()) {
+				return false
 			}
+			for _, oc := range originCalls(ret.Results[0]) {
+				if cal := core.Callee(oc); cal != nil && (core.IsFunc(cal, "fmt", "Errorf") || core.IsFunc(cal, "errors", "New")) {
+					ok = true
+				} else {
+					return false
+				}
+			}
+		}
+		return ok
+	}
+	// the edge leaves with a fresh error: the successor builds one and a return of the function hands
+	// it back (its own return, or the common return that a named result reaches)
+	freshErrRet := func(succ *ssa.BasicBlock) bool {
+		for _, in := range succ.Instrs {
+			c, isCall := in.(*ssa.Call)
+			if !isCall || !isFresh(c) {
+				continue
+			}
+			for _, ret := range core.Returns(fn) {
+				if len(ret.Results) < 2 {
+					continue
+				}
+				for _, oc := range originCalls(core.ReturnOperand(ret, len(ret.Results)-1)) {
+					if oc == c {
+						return true
+					}
+				}
+			}
+		}
+		return false
+	}
+	// an ordered comparison that involves the limit, written in place or in a predicate helper
+	var limitCmp func(v ssa.Value, d int) bool
+	limitCmp = func(v ssa.Value, d int) bool {
+		v, _ = core.StripNot(v, true)
+		switch x := v.(type) {
+		case *ssa.BinOp:
+			switch x.Op {
+			case token.LSS, token.GTR, token.LEQ, token.GEQ:
+				return dependsOnField(x.X, lim, "LimitRead", "Limit") || dependsOnField(x.Y, lim, "LimitRead", "Limit")
+			}
+		case *ssa.Call:
+			g := x.Call.StaticCallee()
+			if d > 1 || g == nil || !p.InModule(g) || len(g.Blocks) == 0 || len(g.Blocks) > 4 {
+				return false
+			}
+			rets := core.Returns(g)
+			if len(rets) == 0 {
+				return false
+			}
+			for _, ret := range rets {
+				if len(ret.Results) != 1 || !limitCmp(ret.Results[0], d+1) {
+					return false
+				}
+			}
+			return true
 		}
 		return false
 	}
@@ -759,29 +821,18 @@ func c01R3(p *core.Prog, r *core.Report) {
 		if !ok {
 			continue
 		}
-		cnd, _ := core.StripNot(ifi.Cond, true)
-		bo, ok := cnd.(*ssa.BinOp)
-		if !ok {
-			continue
-		}
-		switch bo.Op {
-		case token.LSS, token.GTR, token.LEQ, token.GEQ:
-		default:
-			continue
-		}
-		// an ordered comparison that involves the limit (the remaining budget against zero, or the
-		// bytes returned against the limit) and whose one edge leaves with an error
-		if !dependsOnField(bo.X, lim, "LimitRead", "Limit") && !dependsOnField(bo.Y, lim, "LimitRead", "Limit") {
+		if !limitCmp(ifi.Cond, 0) {
 			continue
 		}
 		if !freshErrRet(b.Succs[0]) && !freshErrRet(b.Succs[1]) {
 			continue // the re-slice test: not an exit
 		}
 		n++
-		r.Held(rule, fname, fmt.Sprintf("limit exceeded edge#%d", n), p.Pos(bo.Pos()), "the edge on which the limit is exceeded returns a freshly built error (never nil, never the underlying EOF)")
+		nEdges++
+		r.Held(rule, fname, fmt.Sprintf("limit exceeded edge#%d", n), p.Pos(ifi.Cond.Pos()), "the edge on which the limit is exceeded returns a freshly built error (never nil, never the underlying EOF)")
 	}
-	if n < 2 {
-		r.Violated(rule, fname, "limit tests", p.Pos(fn.Pos()), fmt.Sprintf("%d limit tests that leave with a fresh error found, 2 needed (before and after the underlying read)", n))
+	if nEdges < 2 {
+		r.Violated(rule, fname, "limit tests", p.Pos(fn.Pos()), fmt.Sprintf("%d limit tests that leave with a fresh error found, 2 needed (before and after the underlying read)", nEdges))
 	}
 	// bounded slice: the buffer passed to the underlying Read is a phi of the parameter and a re-slice
 	bounded := false
